@@ -152,7 +152,11 @@ def build(spec, scratch=None, stop_at=None, tolerate_flagged=False):
             oref = op.get('oref')
             if oref is not None:
                 if isinstance(oref, dict):
-                    oref = b.items[(i, oref['$origin'])].origin_reference
+                    if '$origin_later' in oref:
+                        # the explicit reference of an origin that is added later (given as a plain number)
+                        oref = spec['lfs'][i]['ops'][oref['$origin_later']]['oref']
+                    else:
+                        oref = b.items[(i, oref['$origin'])].origin_reference
                 kwargs['origin_reference'] = oref
             if op['t'] == 'channel':
                 if op.get('data') is not None and inline:
